@@ -625,6 +625,11 @@ func (t n2nRT) RoundTrip(req *http.Request) (*http.Response, error) {
 	s.mu.Lock()
 	lost := s.drop[from.key.Name+">"+to.key.Name]
 	s.mu.Unlock()
+	select {
+	case <-to.done: // a node whose DKG process panicked is down
+		lost = true
+	default:
+	}
 	body, _ := io.ReadAll(req.Body)
 	share := ""
 	if vals, err := url.ParseQuery(string(body)); err == nil {
